@@ -296,3 +296,105 @@ func vpC08Rescale(n int) {
 
 func VP_C08_Rescale_n2() { vpC08Rescale(2) }
 func VP_C08_Rescale_n3() { vpC08Rescale(3) }
+
+// C08-H1b: priorities after a batch: a validator new to the set enters at -1.125 x (total power after
+// the updates, before the removals); members keep theirs; then the window is enforced by the ceiling
+// division and the priorities are centred (floor average).  Reference computed with plain integers.
+func VP_C08_UpdatePriorities() {
+	base := []*Validator{vpVal(0, 10), vpVal(1, 10), vpVal(2, 10)}
+	cur := NewValidatorSet(base)
+	if r := int32(vp.Range("rounds-played", 0, 2)); r > 0 {
+		cur.IncrementProposerPriority(r)
+	}
+	type chg struct {
+		who   int
+		power int64
+	}
+	newPower := []int64{1, 10, 30}[vp.Choice("newcomer-power", 3)]
+	var batch []chg
+	switch vp.Choice("batch", 4) {
+	case 0:
+		batch = []chg{{3, newPower}}
+	case 1:
+		batch = []chg{{2, 0}, {3, newPower}}
+	case 2:
+		batch = []chg{{3, newPower}, {2, 0}}
+	case 3:
+		batch = []chg{{0, 5}, {3, newPower}, {1, 0}}
+	}
+	// reference
+	prio := map[int]int64{}
+	power := map[int]int64{}
+	for i := 0; i < 3; i++ {
+		_, v := cur.GetByAddress(vpAddr(i))
+		prio[i], power[i] = v.ProposerPriority, v.VotingPower
+	}
+	tvp := int64(0)
+	for _, p := range power {
+		tvp += p
+	}
+	for _, ch := range batch { // total after updates and additions, removals not yet applied
+		if ch.power > 0 {
+			tvp += ch.power - power[ch.who]
+		}
+	}
+	for _, ch := range batch {
+		if ch.power == 0 {
+			continue
+		}
+		if _, member := power[ch.who]; !member {
+			prio[ch.who] = -(tvp + tvp>>3)
+		}
+		power[ch.who] = ch.power
+	}
+	for _, ch := range batch {
+		if ch.power == 0 {
+			delete(power, ch.who)
+			delete(prio, ch.who)
+		}
+	}
+	total := int64(0)
+	hi, lo, first := int64(0), int64(0), true
+	for who, p := range power {
+		total += p
+		if first || prio[who] > hi {
+			hi = prio[who]
+		}
+		if first || prio[who] < lo {
+			lo = prio[who]
+		}
+		first = false
+	}
+	window := 2 * total
+	if spread := hi - lo; spread > window {
+		ratio := (spread + window - 1) / window
+		for who := range prio {
+			prio[who] /= ratio
+		}
+	}
+	sum := int64(0)
+	for _, p := range prio {
+		sum += p
+	}
+	n := int64(len(prio))
+	avg := sum / n
+	if sum%n != 0 && sum < 0 {
+		avg--
+	}
+	for who := range prio {
+		prio[who] -= avg
+	}
+	changes := make([]*Validator, len(batch))
+	for k, ch := range batch {
+		changes[k] = vpVal(ch.who, ch.power)
+	}
+	if err := cur.UpdateWithChangeSet(changes); err != nil {
+		panic(err)
+	}
+	vp.Assert(len(cur.Validators) == len(prio), "C08.update.size-matches-reference")
+	for who, want := range prio {
+		_, v := cur.GetByAddress(vpAddr(who))
+		vp.Assert(v != nil && v.ProposerPriority == want, "C08.update.priorities-after-a-batch-match-the-specification")
+	}
+	vp.Reach("applied")
+}
